@@ -614,4 +614,35 @@ def fingerprintOK : Bool :=
   SQLiteDB.closeClearsCaches && decide (SQLiteDB.busyTimeoutMs ≥ 1000) &&
   SQLiteDB.recreateFlagBuildSystem && !SQLiteDB.recreateFlagCAPI
 
+/-! ### the transaction shape the model was written against (compared with the extractor's output by
+`C04_one_transaction_per_build`): the model moves `pending` to `committed` at `complete` only, and `open` commits
+only the schema-creating transaction -/
+
+/-- transaction-control statements by function: `open` brackets the schema creation, `buildStarted` begins the
+build transaction, `buildComplete` ends it; no other function (in particular `setRuleResult` and
+`setCurrentIteration`) commits, begins, rolls back, or changes the journalling through a PRAGMA -/
+def modelledTxnControl : List (String × List String) :=
+  [("open", ["BEGIN EXCLUSIVE;", "END;"]), ("buildStarted", ["BEGIN EXCLUSIVE;"]), ("buildComplete", ["END;"])]
+
+/-- SQL that reaches sqlite3 through a variable: the `info` row of `open` and the eight prepared statements, whose
+texts are in `modelledStatements` -/
+def modelledSqlArgsNotLiteral : List (String × String × String) :=
+  ("open", "sqlite3_exec", "query") ::
+  (["findKeyIDForKeyStmt", "findKeyNameForKeyIDStmt", "insertIntoKeysStmt", "insertIntoRuleResultsStmt", "deleteFromKeysStmt",
+    "findRuleResultStmt", "fastFindRuleResultStmt", "getKeysWithResultStmt"].map fun n => ("open", "sqlite3_prepare_v2", n ++ "SQL"))
+
+/-- the sqlite3 API surface the model describes (no `sqlite3_wal_*`, `sqlite3_db_config`, `sqlite3_file_control`,
+`sqlite3_open_v2`, backup or savepoint API) -/
+def modelledSqliteCalls : List String :=
+  ["sqlite3_bind_blob", "sqlite3_bind_double", "sqlite3_bind_int64", "sqlite3_bind_text", "sqlite3_busy_timeout",
+   "sqlite3_clear_bindings", "sqlite3_close", "sqlite3_column_blob", "sqlite3_column_bytes", "sqlite3_column_count",
+   "sqlite3_column_double", "sqlite3_column_int", "sqlite3_column_int64", "sqlite3_column_text", "sqlite3_config",
+   "sqlite3_db_filename", "sqlite3_errcode", "sqlite3_errmsg", "sqlite3_errstr", "sqlite3_exec", "sqlite3_finalize",
+   "sqlite3_free", "sqlite3_last_insert_rowid", "sqlite3_mprintf", "sqlite3_open", "sqlite3_prepare_v2", "sqlite3_reset",
+   "sqlite3_step", "sqlite3_threadsafe"]
+
+def txnShapeOK : Bool :=
+  SQLiteDB.txnControl == modelledTxnControl && SQLiteDB.sqlArgsNotLiteral == modelledSqlArgsNotLiteral &&
+  SQLiteDB.sqliteCalls == modelledSqliteCalls && SQLiteDB.pragmas.isEmpty
+
 end LLBuild.BuildDB
